@@ -61,6 +61,8 @@ KeySet ==
                                    <<97>>}                                                                  \* buckets  bucket/bkt1  a
     \* non-canonical keys (key-value backends keep them apart as byte strings)
     [] KeySetName = "dots"     -> {<<46>>, <<46, 46>>, <<97, 47, 46, 46, 47, 98>>, <<98>>, <<97, 47, 47, 98>>}  \* .  ..  a/../b  b  a//b
+    \* keys made of the bytes of their bucket's name: b  bkt1  1/t
+    [] KeySetName = "bname" -> {<<98>>, <<98, 107, 116, 49>>, <<49, 47, 116>>}
     [] KeySetName = "coll"  -> {<<100, 47, 120>>, <<100, 95, 120>>, <<100, 92, 120>>}            \* d/x, d_x, d\x
     [] KeySetName = "list"  -> {<<97>>, <<97, 47, 49>>, <<97, 45, 98>>, <<98>>} \* a, a/1, a-b, b
 
@@ -107,6 +109,9 @@ Ops(s) ==
      (IF On("CreateBucket") THEN {[op |-> "CreateBucket", b |-> b] : b \in Buckets} ELSE {})
 \cup (IF On("HeadBucket")   THEN {[op |-> "HeadBucket", b |-> b] : b \in Buckets} ELSE {})
 \cup (IF On("DeleteBucket") THEN {[op |-> "DeleteBucket", b |-> b] : b \in Buckets} ELSE {})
+\cup (IF On("ForceDelete")  THEN {[op |-> "DeleteBucket", b |-> b, force |-> TRUE] : b \in Buckets} ELSE {})
+\cup (IF On("CondGet")      THEN {[op |-> o, b |-> b, k |-> k, inm |-> bd]
+                                    : o \in {"GetObject", "HeadObject"}, b \in Buckets, k \in KeySet, bd \in BodySet} ELSE {})
 \cup (IF On("ListBuckets")  THEN {[op |-> "ListBuckets"]} ELSE {})
 \cup (IF On("GetLocation")  THEN {[op |-> "GetLocation", b |-> b] : b \in Buckets} ELSE {})
 \cup (IF On("PutObject")    THEN {[op |-> "PutObject", b |-> b, k |-> k, body |-> bd, meta |-> NoMeta, vid |-> NextVid(s)]
